@@ -31,78 +31,90 @@ func plantCanaries(w *wire.Writer) {
 		c.OracleFail = ""
 		w.Add(c)
 	}
+	// a canary tampers with a real observation; when the implementation is so broken that the
+	// observation lacks the part to tamper with, an unparseable case is planted instead
+	safely := func(f func()) {
+		defer func() {
+			if r := recover(); r != nil {
+				c := &wire.Case{Desc: map[string]interface{}{"canary": "fallback (observation too broken to tamper with)"}}
+				c.Int(99)
+				add(c)
+			}
+		}()
+		f()
+	}
 	// 1. marshal tree: a tag value changed
-	{
+	safely(func() {
 		v := canaryOSM()
 		o := observe(0, v)
 		elemOf(o.tree, "node").get("tags").vals[0].s = "X"
 		add(roundCase(1, 0, v, o, ""))
-	}
+	})
 	// 2. decoded value: node id off by one
-	{
+	safely(func() {
 		v := canaryOSM()
 		o := observe(0, v)
 		o.decoded.(*osm.OSM).Nodes[0].ID++
 		add(roundCase(1, 0, v, o, ""))
-	}
+	})
 	// 3. unmarshal error flag flipped
-	{
+	safely(func() {
 		v := canaryOSM()
 		o := observe(1, v)
 		o.uerr = errFlag{}
 		add(roundCase(1, 1, v, o, ""))
-	}
+	})
 	// 4. absent version decoded as placeholder text (defect fixed by f6e3a8f)
-	{
+	safely(func() {
 		doc, _ := readTree([]byte(`{"elements":[]}`))
 		o := decodeDoc(0, []byte(`{"elements":[]}`))
 		o.decoded.(*osm.OSM).Version = "<nil>"
 		add(docCase(0, doc, &osm.OSM{}, o, ""))
-	}
+	})
 	// 5. bounds element without type (defect fixed by bbea2b1)
-	{
+	safely(func() {
 		v := canaryOSM()
 		o := observe(0, v)
 		elemOf(o.tree, "bounds").del("type")
 		add(roundCase(1, 0, v, o, ""))
-	}
+	})
 	// 6. relation members null
-	{
+	safely(func() {
 		v := canaryOSM()
 		o := observe(0, v)
 		*elemOf(o.tree, "relation").get("members") = *jn()
 		add(roundCase(1, 0, v, o, ""))
-	}
+	})
 	// 7. element case: way nodes as objects instead of ids
-	{
+	safely(func() {
 		v := &osm.Way{ID: 9, Nodes: osm.WayNodes{{ID: 5, Lat: 1.5}}}
 		o := observe(0, v)
 		o.tree.get("nodes").arr[0] = jobj().set("ref", jint(5))
 		add(roundCase(2, 1, v, o, ""))
-	}
+	})
 	// 8. way-node annotation wrongly claimed to survive the round trip
-	{
+	safely(func() {
 		v := &osm.Way{ID: 9, Nodes: osm.WayNodes{{ID: 5, Version: 2}}}
 		o := observe(0, v)
 		o.decoded.(*osm.Way).Nodes[0].ID = 6
 		add(roundCase(2, 1, v, o, ""))
-	}
+	})
 	// 9. change: decoded create block dropped
-	{
+	safely(func() {
 		v := &osm.Change{Version: "0.6", Create: canaryOSM()}
 		o := observe(1, v)
 		o.decoded.(*osm.Change).Create = nil
 		add(roundCase(4, 1, v, o, ""))
-	}
+	})
 	// 10. document: a decoded tag lost
-	{
+	safely(func() {
 		text := []byte(`{"version":0.6,"elements":[{"type":"node","id":1,"lat":1,"lon":2,"tags":{"a":"b","c":"d"}}]}`)
 		doc, _ := readTree(text)
 		o := decodeDoc(0, text)
 		n := o.decoded.(*osm.OSM).Nodes[0]
 		n.Tags = n.Tags[:1]
 		add(docCase(0, doc, nil, o, ""))
-	}
+	})
 }
 
 type errFlag struct{}
